@@ -4,6 +4,7 @@ package c49
 
 import (
 	"verif/harness/core"
+	"verif/harness/props/c36"
 	"verif/harness/props/tokenworld"
 )
 
@@ -11,5 +12,14 @@ func init() { core.Register("C49", "model_checking", run) }
 
 func run(c *core.C) {
 	tokenworld.Run(c, tokenworld.Arm{C49: true})
+	if c.Replay == "" {
+		// "... or authorized the signer": grants are covered by the transfer-authorization exploration
+		// (MsgGrant / MsgExec(MsgTransfer) through the real authz keeper against a reference ledger),
+		// run here under this check's id; its coverage keys are the grant_* / evaluations keys
+		exhaustive := !c.Capped()
+		c36.Run(c)
+		c.Set("exhaustive", exhaustive && !c.Capped())
+		c.Set("grants_note", "the evaluations / distinct_nontrivial / rule keys describe the grant exploration (same machinery as C36: a grantee can never move more than the granted limit out of the granter's account); replay of a grant violation: ./run C36 --replay <file>")
+	}
 	c.Set("oracle", "every transition, on the raw bank store (all accounts): a send message's required signer set (SDK GetMsgV1Signers) must be exactly the submitting account, and for MsgTransfer equal its sender field; only that signer may be debited, by at most the authorised coin, and only the path's escrow account may be credited; a MsgSendPacket whose payload names another account as sender must be rejected without any store change; recv may credit only the packet's receiver and debit only the path's escrow account (returning tokens), ack/timeout may credit only the packet's sender and debit only the path's escrow account; rejected/NOOP relays, block production, client updates and parameter changes move nothing; relays are signed by a neutral address or by an uninvolved user")
 }
